@@ -98,6 +98,8 @@ inductive Op
   | tryInsert (i : Nat) (k : UInt64) -- `KeyStore::try_insert` (provided method)
   | sremove (i : Nat)                -- `KeyStore::remove` (provided method)
   | reopen                           -- fs: `Store::open` on the same directory; mem: `clone`
+  | insertFail (k : UInt64)          -- `Vacant::insert` of a key whose `Serialize` fails half way
+  | tryInsertFail (i : Nat) (k : UInt64) -- `KeyStore::try_insert` of such a key
 deriving DecidableEq, Repr
 
 inductive Resp
@@ -157,6 +159,17 @@ def Spec.step (t : Spec) : Op → Resp × Spec
   | .reopen => match t.cur with
     | some _ => (.misuse, t)
     | none => (.ok, t)
+  -- a failed insert leaves the id vacant: the map does not change
+  | .insertFail _ => match t.cur with
+    | some i => (match t.m i with
+      | none => (.err, { t with cur := none })
+      | some _ => (.misuse, t))
+    | none => (.misuse, t)
+  | .tryInsertFail i _ => match t.cur with
+    | some _ => (.misuse, t)
+    | none => (match t.m i with
+      | none => (.err, t)
+      | some _ => (.exists, t))
 
 def Spec.run (t : Spec) : List Op → List Resp × Spec
   | [] => ([], t)
@@ -227,6 +240,15 @@ def Mem.step (s : Mem) : Op → Resp × Mem
   | .reopen => match s.cur with
     | some _ => (.misuse, s)
     | none => (.ok, s)
+  -- `StoredKey::new(key)?` fails before the `BTreeMap` entry is touched
+  | .insertFail _ => match s.cur with
+    | some ⟨_, false⟩ => (.err, { s with cur := none })
+    | _ => (.misuse, s)
+  | .tryInsertFail i _ => match s.cur with
+    | some _ => (.misuse, s)
+    | none => (match s.entry i with
+      | (.vac, _) => (.err, s)
+      | (_, _) => (.exists, s))
 
 def Mem.run (s : Mem) : List Op → List Resp × Mem
   | [] => ([], s)
@@ -318,6 +340,18 @@ def Fs.vacInsert (s : Fs) (i : Nat) (fd : Fd) (k : UInt64) : Resp × Fs :=
   | some _ => (.panic, { s.unlink i with cur := none })
   | none => (.err, { s.unlink i with cur := none })
 
+/-- bytes a key whose `Serialize` fails half way has already pushed through the descriptor when
+the failure is reported (the harness's key: a 2-tuple head, the first element, then the error) -/
+def partialEnc (k : UInt64) : List UInt8 := 0x82 :: enc k
+
+/-- `VacantEntry::insert` whose `cbor::into_writer(&key, &self.fd)?` fails after a partial write:
+the `dirty` flag is still false, so the drop of the entry unlinks the file -/
+def Fs.vacInsertFail (s : Fs) (i : Nat) (fd : Fd) (k : UInt64) : Resp × Fs :=
+  match s.inodes[fd.ino]? with
+  | some [] => (.err, { ((s.write fd (partialEnc k)).1).unlink i with cur := none })
+  | some _ => (.panic, { s.unlink i with cur := none })
+  | none => (.err, { s.unlink i with cur := none })
+
 /-- `OccupiedEntry::remove`: `unlinkat(..)?` then `self.get()` -/
 def Fs.occRemove (rw : Bool) (s : Fs) (i : Nat) (fd : Fd) : Resp × Fs :=
   match aget s.dir i with
@@ -385,6 +419,17 @@ def Fs.step (rw : Bool) (s : Fs) : Op → Resp × Fs
   | .reopen => match s.cur with
     | some _ => (.misuse, s)
     | none => (.ok, s)
+  | .insertFail k => match s.cur with
+    | some ⟨i, false, fd⟩ => s.vacInsertFail i fd k
+    | _ => (.misuse, s)
+  | .tryInsertFail i k => match s.cur with
+    | some _ => (.misuse, s)
+    | none => (match s.entry i with
+      | (.vac, s1) => (match s1.cur with
+        | some ⟨_, _, fd⟩ => s1.vacInsertFail i fd k
+        | none => (.misuse, s1))
+      | (.occ, s1) => (.exists, { s1 with cur := none })
+      | (r, s1) => (r, s1))
 
 def Fs.run (rw : Bool) (s : Fs) : List Op → List Resp × Fs
   | [] => ([], s)
